@@ -2,7 +2,7 @@
 import core
 import gen
 from core import PANIC, Some, opt
-from props.common import default_encode, default_decode, split_range
+from props.common import thorough_aux, default_encode, default_decode, split_range
 
 PROP = 'C08'
 BIN = 'c08'
@@ -233,3 +233,6 @@ REQUIRED = ['power overflows', 'power overflows by at most 2 bits', 'power fits 
 
 def floors(st, tier):
     return ['class %r never observed' % c for c in REQUIRED if st['classes'].get(c, 0) == 0]
+
+
+extra_passes = thorough_aux('props.c08', (), exh=True)
